@@ -548,12 +548,21 @@ def quirk_explanation(c, observed, steps_bad, skip=()):
     return out
 
 
-def single_case(c, ast, strings, cid, tok=False):
+def single_case(c, ast, strings, cid, tok=False, win=None):
+    """win = (full string, lo, hi): run the single string as that window of the full string (a finding seen on a window
+    may depend on what surrounds the window, so the rewrite trials must keep it)"""
     m = c.meta
+    if win is not None:
+        strings = [list(win[0])]
     cc = build_case(cid, ast, m['dialect'], m['flags'], core.rng('single', cid), strings=strings, extras=False)
+    if win is not None:
+        full, lo, hi = win
+        off = u16off(list(full))
+        cc.steps[1] = (cc.steps[1][0], cc.steps[1][1], {'w': '%d:%d' % (off[lo], off[hi])})
+        cc.meta['steps'][0] = [list(full), lo, hi]
     if tok:
         for k in range(1, len(cc.steps)):
-            cc.steps[k] = (cc.steps[k][0], cc.steps[k][1], {'t': 1})
+            cc.steps[k] = (cc.steps[k][0], cc.steps[k][1], dict(cc.steps[k][2] or {}, t=1))
     return cc
 
 
@@ -581,8 +590,8 @@ CLASS_OF = {l: n for l, n, _ in TRIALS}
 OPEN_CLASSES = ('closure-other', 'classes+closures-other')
 
 
-def trial_cases(c, ast, s, tag, tok=False):
-    """[(label, Case)]: the rewritten forms of `ast`, each with the single string s"""
+def trial_cases(c, ast, s, tag, tok=False, win=None):
+    """[(label, Case)]: the rewritten forms of `ast`, each with the single string s (as window `win` of its full string)"""
     L = max(1, len(s))
     out = []
     seen = {repr(R.flatten(ast))}
@@ -599,7 +608,7 @@ def trial_cases(c, ast, s, tag, tok=False):
             continue
         seen.add(repr(rw))
         try:
-            cc = single_case(c, rw, [list(s)], '%s~%s~%s' % (c.id, tag, label), tok=tok)
+            cc = single_case(c, rw, [list(s)], '%s~%s~%s' % (c.id, tag, label), tok=tok, win=win)
         except (OverflowError, ValueError, KeyError):
             continue
         if len(cc.steps[0][1]) > (4000 if L <= 8 else 1500):
@@ -1040,14 +1049,15 @@ class Triage:
                 s, lo, hi = m['steps'][f0['step'] - 1]
                 sub = list(s if lo is None else s[lo:hi])
                 self.items.append(dict(c=c, r=r, fs=fs, f0=f0, direction=direction, kinds=('false-reject', 'false-accept'),
-                                       observed=(direction == 'false-accept'), ast=m['ast'], s=sub, tag=direction[6:], tok=False))
+                                       observed=(direction == 'false-accept'), ast=m['ast'], s=sub, tag=direction[6:], tok=False,
+                                       win=None if lo is None else (list(s), lo, hi)))
         # ---- positional findings (one per case)
         for f in F:
             if f['kind'] in ('match-pos', 'allmatches') and f['step'] not in optsteps:
                 s, lo, hi = m['steps'][f['step'] - 1]
                 sub = list(s if lo is None else s[lo:hi])
                 self.items.append(dict(c=c, r=r, fs=[f], f0=f, direction=None, kinds=('match-pos', 'allmatches'), ast=m['ast'], s=sub,
-                                       tag='pos', tok=True))
+                                       tag='pos', tok=True, win=None if lo is None else (list(s), lo, hi)))
                 break
 
 
@@ -1057,7 +1067,7 @@ def classify(ck, binary, tri, overflow, J):
     report = tri.report
     items = tri.items
     for it in items:
-        it['trials'] = trial_cases(it['c'], it['ast'], it['s'], it['tag'], tok=it['tok'])
+        it['trials'] = trial_cases(it['c'], it['ast'], it['s'], it['tag'], tok=it['tok'], win=it.get('win'))
     # overflow / hang confirmations
     opend = []
     for c, r in overflow:
